@@ -2,7 +2,7 @@
 proof : Coq theorems over the L2 resource machine (coq/Effects.v + mechanism files), all counts, all schedules
 tie   : micro-correspondence - the real momo mechanisms on kit elements vs the extracted model, identical event traces
 oracle: the real containers, every operation documented as strongly safe, every failure point by replay of the prefix"""
-import os, re
+import os, re, hashlib
 
 PARTS = {1: ['array', 'array_ic4', 'segarray', 'array_triv'],
          2: ['hset_limp4', 'hset_open8', 'hset_limp', 'hset_limp4_nv', 'hset_limp4_p4'],
@@ -20,7 +20,7 @@ NOPS = {'hset_limp4_p4': 40, 'tset_n4_p4': 44, 'array_triv': 30, 'hset_limp4_nv'
 KNOWN_KEYS = []
 
 
-GEN = ['gen_openn1_add.json', 'gen_open2n2_add.json', 'gen_limp4_add.json', 'gen_arrreset.json']
+GEN = ['gen_openn1_add.json', 'gen_open2n2_add.json', 'gen_limp4_add.json', 'gen_arrreset.json', 'gen_xcheck_h.json', 'gen_xcheck_t.json']
 
 
 def gen_cases(ctx):
@@ -72,6 +72,26 @@ def gen_cases(ctx):
             for f in (0, 1, 2):
                 out.append('genrst - 0 0 rst %d %d %d %d %d %d %d' % (f, cap0, cnt0, capacity, count, w, v))
     return out
+
+
+def regen_facts(ctx):
+    """AST facts (astfacts04.py): the catch blocks of the delegating copy / initializer-list constructors (806b9fe), DataTable::pvFill (91ea186) and
+    the row loop of HashMultiMap's copy constructor (84c9298) -> coq/Gen_C04Facts.v; coq/FactsTie.v states the theorems at these values"""
+    import importlib.util
+    out = os.path.join(ctx.cdir, 'Gen_C04Facts.v')
+    try:
+        sp = importlib.util.spec_from_file_location('astfacts04', os.path.join(ctx.pdir, 'astfacts04.py'))
+        mod = importlib.util.module_from_spec(sp); sp.loader.exec_module(mod)
+        txt = mod.facts_text(os.path.join(ctx.pdir, 'inst_facts.cpp'), ctx.repo, ctx.root)
+        if not os.path.exists(out) or open(out).read() != txt:
+            open(out, 'w').write(txt)
+        ctx.tie_obligations.append({'name': 'AST facts Gen_C04Facts (catch blocks of the copying constructors, pvFill, HashMultiMap row loop)', 'ok': True,
+                                    'sha256': hashlib.sha256(txt.encode()).hexdigest()[:16]})
+    except Exception as e:
+        if os.path.exists(out):
+            os.remove(out)      # a stale fact file must not keep the proofs green
+        ctx.tie_obligations.append({'name': 'AST facts Gen_C04Facts', 'ok': False, 'error': str(e)[:400]})
+        ctx.stage('regen-facts', False, str(e)[:400])
 
 
 def micro_cases(ctx):
@@ -229,8 +249,11 @@ def _stamp(ctx, src, flags):
 
 def build(ctx):
     """build micro + the five oracle parts in parallel; an executable is reused only if the hash of ALL its inputs is unchanged"""
-    dbg = ['-g0'] if ctx.quick() else []
-    jobs = [('micro.cpp', 'micro', dbg)] + [('harness.cpp', 'h%d' % p, ['-DPART=%d' % p] + dbg) for p in PARTS]
+    dbg = ['-g0'] if ctx.quick() else []   # (-O0 was measured: compile 19 s -> 10 s per heavy part, but the oracle then RUNS 4x longer on every run: net loss)
+    # heaviest translation units first (8 compile at a time): the two that wait must not be the long ones
+    order = sorted(PARTS, key=lambda p: -len(PARTS[p]))
+    jobs = [('harness.cpp', 'h%d' % p, ['-DPART=%d' % p] + dbg) for p in order[:3]] + [('micro.cpp', 'micro', dbg)] + \
+           [('harness.cpp', 'h%d' % p, ['-DPART=%d' % p] + dbg) for p in order[3:]]
     exes = {}; todo = []
     for (src, exe, flags) in jobs:
         out = os.path.join(ctx.build, exe + ('' if ctx.quick() else '.san'))
@@ -295,6 +318,7 @@ def run(ctx):
     # T-gen: BucketOpenN1 / BucketOpen2N2 ::AddCrt and ::Remove, BucketLimP4::AddCrt / pvAdd0 / pvAdd, Array::Data::Reset / pvReset are regenerated from
     # /repo's headers (functor / constructor of a guard / RelocateCreate = steps that may throw; catch-and-rethrow handlers translated)
     ctx.regen(GEN)
+    regen_facts(ctx)
     # the C++ builds (9 translation units, in parallel) run concurrently with the Coq build
     import threading
     box = {}
